@@ -292,12 +292,15 @@ class Ctx:
                 if extra:
                     raise InfraError(f"theorem {t} depends on non-standard axioms {extra}")
 
-    def driver(self, lines: list[str], timeout: int = 1800) -> list[str]:
-        """run the Lean model driver on request lines; one response per line"""
+    def driver(self, lines: list[str], timeout: int = 1800, entry: str = "Driver.lean") -> list[str]:
+        """run a Lean model driver (`lean/<entry>`) on request lines; one response per line
+        (the driver prefixes each response with "> ")"""
+        if not lines:
+            return []
         with self.timed("lean_driver"):
             inp = "\n".join(lines) + "\n"
             p = subprocess.run(
-                ["lake", "env", "lean", "--run", "Driver.lean"],
+                ["lake", "env", "lean", "--run", entry],
                 cwd=LEAN,
                 input=inp,
                 capture_output=True,
